@@ -45,7 +45,7 @@ type c19FilesCase struct {
 	Ctx   PkgCtx            `json:"ctx"`
 }
 
-var hostileStrings = []string{"", " ", "=>", "a=>", "=>b", "a => b\nc", "\n", "{{", "}}", "{{ .config.x }}", "{{ include \"x\" . }}", "{{ template \"nope\" }}", "null", "~", "[]", "{}", "- a", "true", "0", "-1", "1e9", "\"", "'", "a: b: c", "\t", "---", "cond.nosuch", "1 +", "has(", "config.flag ? 1 : 2", "package-operator.run/phase", "../../etc/passwd", strings.Repeat("a", 300), "\u0000", "\u2028"}
+var hostileStrings = []string{"", " ", "=>", "a=>", "=>b", "a => b\nc", "\n", "{{", "}}", "{{ .config.x }}", "{{ include \"x\" . }}", "{{ template \"nope\" }}", "null", "~", "[]", "{}", "- a", "true", "0", "-1", "1e9", "\"", "'", "a: b: c", "\t", "---", "cond.nosuch", "1 +", "has(", "config.flag ? 1 : 2", "config.label", "config.flag", "config", "config.missing", "environment.kubernetes.version", "environment.openShift", "package.metadata.name", "config.label + 1", "[config.label][0]", "{\"a\": config.flag}[\"a\"]", "package-operator.run/phase", "../../etc/passwd", strings.Repeat("a", 300), "\u0000", "\u2028"}
 
 func genHostile(t *rapid.T) string {
 	if rapid.IntRange(0, 3).Draw(t, "hk") == 0 {
@@ -103,6 +103,9 @@ func mutateFiles(t *rapid.T, files map[string][]byte) map[string]string {
 				"  constraints:\n  - platformVersion:\n      name: Kubernetes\n      range: \"not a range\"\n",
 				"  filter:\n    conditions:\n    - name: 'bad name'\n      expression: 'true'\n",
 				"  filter:\n    conditions:\n    - name: c9\n      expression: '1 + 1'\n",
+				"  filter:\n    conditions:\n    - name: c9\n      expression: 'config.label'\n    paths:\n    - glob: 'a/**'\n      expression: 'cond.c9'\n",
+				"  filter:\n    paths:\n    - glob: '**'\n      expression: 'config.label'\n",
+				"  filter:\n    paths:\n    - glob: 'a/**'\n      expression: 'environment.kubernetes'\n",
 				"  filter:\n    paths:\n    - glob: '[['\n      expression: 'false'\n",
 				"  config:\n    openAPIV3Schema:\n      type: object\n      properties:\n        x:\n          type: nosuchtype\n",
 				"  dependencies:\n  - image:\n      name: x\n      package: p\n      range: '>1'\n",
@@ -117,7 +120,7 @@ func mutateFiles(t *rapid.T, files map[string][]byte) map[string]string {
 		case 8: // template body replaced by a hostile template
 			for _, f := range names {
 				if strings.HasSuffix(f, ".gotmpl") {
-					out[f] = out[f] + "\n# " + rapid.SampledFrom([]string{"{{ fail \"x\" }}", "{{ include \"hlp.name\" . | repeat 3 }}", "{{ getFile \"nope\" }}", "{{ (getFileGlob \"**\") | toJson }}", "{{ index .config \"label\" 3 }}", "{{ .images.nosuch }}", "{{ cel \"cond.nosuch\" }}", "{{ cel \"1 +\" }}", "{{ fromYAML \": :\" }}", "{{ b64decMap (dict \"a\" \"!!\") }}", "{{ regexMatch \"[\" \"a\" }}", "{{ splitList \"\" .config.label | first }}", "{{ dict 1 2 3 }}", "{{ semver \"x\" }}", "{{ toDecimal \"zz\" }}"}).Draw(t, "tmpl") + "\n"
+					out[f] = out[f] + "\n# " + rapid.SampledFrom([]string{"{{ fail \"x\" }}", "{{ include \"hlp.name\" . | repeat 3 }}", "{{ getFile \"nope\" }}", "{{ (getFileGlob \"**\") | toJson }}", "{{ index .config \"label\" 3 }}", "{{ .images.nosuch }}", "{{ cel \"cond.nosuch\" }}", "{{ cel \"1 +\" }}", "{{ cel \"config.label\" }}", "{{ cel \"config\" }}", "{{ fromYAML \": :\" }}", "{{ b64decMap (dict \"a\" \"!!\") }}", "{{ regexMatch \"[\" \"a\" }}", "{{ splitList \"\" .config.label | first }}", "{{ dict 1 2 3 }}", "{{ semver \"x\" }}", "{{ toDecimal \"zz\" }}"}).Draw(t, "tmpl") + "\n"
 					break
 				}
 			}
